@@ -115,6 +115,8 @@ def entry_configs(cls: str) -> list:
                                         "grouped_to_file"):
                 continue  # these choose the stream class themselves (never GraphStream)
             out.append((pi, 2, "flat", True, w))
+    if cls != "graph":
+        out.append((3, 250, "flat", True, "graph_serialize_default"))  # no options at all
     return out
 
 
